@@ -162,9 +162,39 @@ def main(tier, seed):
         ctx.fail('the shared (module-level) grammar was modified by concurrent parsing', {'op': 'fingerprint', 'after': 'threads'})
     # --- no shared mutable state between results
     ok_docs = [(t, p) for (t, p), r in zip(docs, base) if 'ok' in r]
+    import tempfile, pathlib, shutil
+    tmpd = tempfile.mkdtemp(prefix='c11_')
+
+    def via(route, t, p, tag):
+        """the document through one of the entry routes of the library (parse_file takes no options: only for p False)"""
+        if route == 0 or (p and route in (2, 3)):
+            return PyDBML(t, allow_properties=p)
+        if route == 1:
+            return PyDBML.parse(t, allow_properties=p)
+        f = pathlib.Path(tmpd) / f'{tag}.dbml'
+        f.write_text(t, encoding='utf8')
+        if route == 2:
+            return PyDBML.parse_file(str(f))
+        if route == 3:
+            return PyDBML.parse_file(f)
+        if route == 4:
+            return PyDBML(f, allow_properties=p)
+        with open(f, encoding='utf8') as fh:
+            return PyDBML(fh, allow_properties=p)
     for k, (t, p) in enumerate(ok_docs[:40 if not ctx.thorough else 400]):
-        a = PyDBML(t, allow_properties=p)
-        b = PyDBML(t, allow_properties=p)
+        # both results through the same route (k), then through two different ones: a memo in any route shows
+        ra, rb = [(k % 6, k % 6), (k % 6, (k + 1) % 6)][(k // 6) % 2]
+        try:
+            a = via(ra, t, p, f'a{k}')
+            b = via(rb, t, p, f'a{k}' if (k // 12) % 2 == 0 else f'b{k}')
+        except UnicodeError:
+            a = PyDBML(t, allow_properties=p)
+            b = PyDBML(t, allow_properties=p)
+        ctx.count(f'routes:{ra}/{rb}')
+        if a is b:
+            ctx.fail('two parse calls on the same document return one and the same Database object',
+                     {'op': 'aliasing', 'text': t, 'props': p, 'routes': [ra, rb]})
+            continue
         before = O.dump_db(b)
         shared = set(reachable_mutables(a)) & set(reachable_mutables(b))
         if shared:
@@ -201,6 +231,7 @@ def main(tier, seed):
         c = PC.impl_parse(t, p)
         if c.get('ok') != before:
             ctx.fail('editing a parsed database changes the outcome of a later parse', {'op': 'aliasing-later', 'text': t, 'props': p})
+    shutil.rmtree(tmpd, ignore_errors=True)
     # --- reclaimability
     live0 = live_pydbml_objects()
     refs = []
@@ -277,4 +308,15 @@ def main(tier, seed):
 def replay(path):
     case = json.load(open(path))
     print(json.dumps(case, indent=1)[:3000])
+    c = case.get('case', {})
+    if c.get('op') == 'aliasing' and c.get('routes') and not c.get('props'):
+        import tempfile, pathlib
+        with tempfile.TemporaryDirectory(prefix='c11_') as d:
+            f = pathlib.Path(d) / 'doc.dbml'
+            f.write_text(c['text'], encoding='utf8')
+            mk = {0: lambda: PyDBML(c['text']), 1: lambda: PyDBML.parse(c['text']), 2: lambda: PyDBML.parse_file(str(f)),
+                  3: lambda: PyDBML.parse_file(f), 4: lambda: PyDBML(f), 5: lambda: PyDBML(open(f, encoding='utf8'))}
+            a, b = mk[c['routes'][0]](), mk[c['routes'][1]]()
+            print('routes', c['routes'], '-> the two calls return the same object:', a is b)
+            return 1 if a is b else 0
     return 0
